@@ -134,6 +134,22 @@ def token_language(ctx, rep, clause):
        f'tokenised whole by CONDENSED_CHEM_FORMULA_PATTERN', not bad, 'element group matches each symbol exactly',
        f'mis-tokenised: {bad[:4]}: such a composition does not survive write -> parse', program.module('constants').relpath,
        clause)
+    # two adjacent components stay two components: the reader must not glue the electron key `e` (or any key) and its
+    # count onto the count of the component before it (exponent notation is not part of the count language)
+    glued = []
+    for k1 in ('C', 'Cl', 'Se', 'H'):
+        for c1 in ('6', '0.5', '12'):
+            for k2 in ('e', 'p', 'n', 'C', 'O'):
+                for c2 in ('-12', '2', '-1.5', '10'):
+                    if k1 == k2:
+                        continue
+                    toks = [(m.group(1), m.group(2)) for m in rc.finditer(k1 + c1 + k2 + c2) if m.group(0)]
+                    if toks != [(k1, c1), (k2, c2)] and len(glued) < 4:
+                        glued.append((k1 + c1 + k2 + c2, toks))
+    ob(rep, 'TOK-formula', 'peptacular.constants', 'two adjacent components are tokenised as two components', not glued,
+       '240 pairs of (key, count)(key, count) checked against CONDENSED_CHEM_FORMULA_PATTERN',
+       f'mis-tokenised pairs: {glued[:3]}: what the writer emits for such a composition parses back to another one',
+       program.module('constants').relpath, clause)
     # count language: ints and decimals with <= 4 places, no exponent form
     counts = ['1', '-1', '500', '-200', '0.5', '-0.0001', '12.3456', '3.0']
     badc = [c for c in counts if not rc.fullmatch('C' + c) or rc.fullmatch('C' + c).group(2) != c or
@@ -370,5 +386,8 @@ def check(ctx, rep):
     accumulate(ctx, rep, 'C15c')
     writer_and_mass(ctx, rep, 'C15d')
     glycan_tokenizer(ctx, rep, 'C15e')
+    from .common import value_preserving_rule, self_accumulation_rule
+    value_preserving_rule(ctx, rep, 'C15d', ('peptacular.chem.chem_util', 'peptacular.chem.chem_calc', 'peptacular.glycan'))
+    self_accumulation_rule(ctx, rep, 'C15c', ('peptacular.chem.chem_util', 'peptacular.chem.chem_calc', 'peptacular.glycan', 'peptacular.mods.mod_db_setup'))
     from . import C10
     C10.lookup_order(ctx, rep, 'C15e')
